@@ -586,4 +586,626 @@ example : checkObserved exCfg {} [1, 2] (List.replicate 12 {})
 example : checkObserved { exCfg with initial := 0, maxElapsed := 0 } { shutdown := some 1 } [1] [{ dur := 2 }, { dur := 2 }, {}]
     { calls := [(0, [1]), (2, [1])], tEnd := 4, isNil := false, permFlag := false, sdFlag := true } = ["C05/retry/attempt-after-shutdown"] := by decide
 
+
+/-! ## equal instants: every scheduling order (`ndAllowed`, `Allowed`) -/
+
+def FitsAllW (c : Cfg) (e : Env) (fin w : Nat) : Prop :=
+  (c.maxElapsed = 0 ∨ fin + w ≤ c.maxElapsed) ∧
+  (∀ d, e.deadline = some d → fin + w ≤ d) ∧
+  (∀ s, e.shutdown = some s → fin + w ≤ s) ∧
+  (∀ x, e.cancel = some x → fin + w ≤ x)
+
+theorem ndAllowed_det (c : Cfg) (e : Env) (fin w : Nat) : ndAllowed c e fin w (afterFailure c e fin w) = true := by
+  generalize ho : afterFailure c e fin w = o
+  unfold afterFailure at ho
+  unfold ndAllowed
+  simp only [] at ho ⊢
+  generalize e.ctxDone = xd at ho ⊢
+  generalize e.shutdown = sd at ho ⊢
+  generalize olt e.deadline (fin + w) = bd at ho ⊢
+  by_cases h1 : c.maxElapsed > 0 ∧ c.maxElapsed < fin + w
+  · simp only [h1, if_true] at ho ⊢; subst ho; simp
+  · simp only [h1, if_false] at ho ⊢
+    cases bd
+    · simp only [Bool.false_eq_true, if_false] at ho ⊢
+      cases sd <;> cases xd <;> simp only [olt, ole] at ho ⊢
+      · simp at ho; subst ho; simp
+      · rename_i x
+        by_cases a : x ≤ fin <;> by_cases b : x < fin + w <;> simp [a, b] at ho <;> subst ho <;> simp <;> omega
+      · rename_i s
+        by_cases a : s ≤ fin <;> by_cases b : s < fin + w <;> simp [a, b] at ho <;> subst ho <;> simp <;> omega
+      · rename_i s x
+        by_cases a : s ≤ fin <;> by_cases b : x ≤ fin <;> by_cases d : s < fin + w ∧ s ≤ x <;> by_cases f : x < fin + w <;>
+          simp [a, b, d, f] at ho <;> subst ho <;> simp <;> omega
+    · simp only [if_true] at ho ⊢; subst ho; simp
+
+theorem ndAllowed_none (c : Cfg) (e : Env) (fin w : Nat) (h : ndAllowed c e fin w none = true) : FitsAllW c e fin w := by
+  unfold ndAllowed at h
+  simp only [] at h
+  obtain ⟨dl, cn, sd⟩ := e
+  by_cases h1 : c.maxElapsed > 0 ∧ c.maxElapsed < fin + w
+  · simp [h1] at h
+  · simp only [h1, if_false] at h
+    cases dl <;> cases cn <;> cases sd <;> simp [olt, Env.ctxDone, omin, FitsAllW] at h ⊢ <;> omega
+
+
+/-! ## the oracle in recursive and in indexed form; it decides exactly the indexed clauses -/
+
+def dfltAtt : Attempt := { ok := true }
+
+/-- a retry may start at `t`: neither shutdown nor the end of the context strictly before it, within the budget -/
+def RetryStartOK (c : Cfg) (e : Env) (t : Nat) : Prop :=
+  olt e.shutdown t = false ∧ olt e.ctxDone t = false ∧ ¬ (c.maxElapsed > 0 ∧ c.maxElapsed < t)
+
+/-- the clauses relating attempt `a` (started at `t` with payload `pl`) to the next call `(t2, pl2)` -/
+def PairOK (c : Cfg) (e : Env) (a : Attempt) (t : Nat) (pl : List Nat) (t2 : Nat) (pl2 : List Nat) : Prop :=
+  c.enabled = true ∧ a.ok = false ∧ a.perm = false ∧
+  ¬ (t2 < (finish c e t a).getD t + a.throttle.getD 0) ∧
+  ¬ (a.throttle.isNone = true ∧ (t2 - (finish c e t a).getD t) * c.rfDen > envelopeHiTimesDen c) ∧
+  pl2 = a.rest.getD pl
+
+/-- the clauses relating the last attempt to the returned error -/
+def LastOK (c : Cfg) (e : Env) (o : Observed) (a : Attempt) (t : Nat) : Prop :=
+  ¬ (o.isNil = false ∧ o.permFlag = false ∧ o.sdFlag = false ∧ c.enabled = true ∧ sdBefore e o.tEnd = true ∧ o.tEnd > (finish c e t a).getD t) ∧
+  ¬ (o.isNil = true ∧ a.ok = false) ∧ ¬ (o.isNil = false ∧ a.ok = true)
+
+/-- the oracle's clauses in recursive form: calls and script are consumed together -/
+def GoodRec (c : Cfg) (e : Env) (o : Observed) : Bool → List (Nat × List Nat) → List Attempt → Prop
+  | _, [], _ => False
+  | first, [(t, _)], s => (first = false → RetryStartOK c e t) ∧ LastOK c e o (s.headD dfltAtt) t
+  | first, (t, pl) :: (t2, pl2) :: rest, s =>
+    (first = false → RetryStartOK c e t) ∧ PairOK c e (s.headD dfltAtt) t pl t2 pl2 ∧ GoodRec c e o false ((t2, pl2) :: rest) s.tail
+
+/-- the oracle's clauses in indexed form (what `checkObserved` evaluates) -/
+def ObservedAll (c : Cfg) (e : Env) (payload : List Nat) (script : List Attempt) (o : Observed) : Prop :=
+  let callAt (k : Nat) : Nat × List Nat := o.calls.getD k (0, [])
+  let att (k : Nat) : Attempt := script.getD k dfltAtt
+  0 < o.calls.length ∧ (callAt 0).2 = payload ∧
+  (∀ k, k + 1 < o.calls.length → PairOK c e (att k) (callAt k).1 (callAt k).2 (callAt (k + 1)).1 (callAt (k + 1)).2) ∧
+  (∀ k, 0 < k → k < o.calls.length → RetryStartOK c e (callAt k).1) ∧
+  LastOK c e o (att (o.calls.length - 1)) (callAt (o.calls.length - 1)).1
+
+theorem getD_tail {α : Type} (s : List α) (k : Nat) (d : α) : s.getD (k + 1) d = s.tail.getD k d := by
+  cases s <;> simp
+
+theorem headD_eq_getD {α : Type} (s : List α) (d : α) : s.headD d = s.getD 0 d := by
+  cases s <;> simp
+
+theorem goodRec_indexed (c : Cfg) (e : Env) (o : Observed) : ∀ (calls : List (Nat × List Nat)) (first : Bool) (s : List Attempt),
+    GoodRec c e o first calls s →
+    0 < calls.length ∧
+    (∀ k, k + 1 < calls.length → PairOK c e (s.getD k dfltAtt) (calls.getD k (0, [])).1 (calls.getD k (0, [])).2
+        (calls.getD (k + 1) (0, [])).1 (calls.getD (k + 1) (0, [])).2) ∧
+    (∀ k, (first = false ∨ 0 < k) → k < calls.length → RetryStartOK c e (calls.getD k (0, [])).1) ∧
+    LastOK c e o (s.getD (calls.length - 1) dfltAtt) (calls.getD (calls.length - 1) (0, [])).1 := by
+  intro calls
+  induction calls with
+  | nil => intro first s h; simp [GoodRec] at h
+  | cons x xs ih =>
+    intro first s h
+    cases xs with
+    | nil =>
+      obtain ⟨t, pl⟩ := x
+      simp only [GoodRec] at h
+      refine ⟨by simp, ?_, ?_, ?_⟩
+      · intro k hk; simp at hk
+      · intro k hf hk
+        have : k = 0 := by simpa using hk
+        subst this
+        rcases hf with hf | hf
+        · simpa using h.1 hf
+        · omega
+      · have h' := h.2; rw [headD_eq_getD] at h'; simpa using h'
+    | cons y ys =>
+      obtain ⟨t, pl⟩ := x
+      obtain ⟨t2, pl2⟩ := y
+      simp only [GoodRec] at h
+      obtain ⟨h1, h2, h3⟩ := h
+      obtain ⟨_, i2, i3, i4⟩ := ih false s.tail h3
+      refine ⟨by simp, ?_, ?_, ?_⟩
+      · intro k hk
+        cases k with
+        | zero => rw [headD_eq_getD] at h2; simpa using h2
+        | succ k =>
+          have := i2 k (by simpa using hk)
+          simpa [getD_tail] using this
+      · intro k hf hk
+        cases k with
+        | zero =>
+          rcases hf with hf | hf
+          · simpa using h1 hf
+          · omega
+        | succ k =>
+          have := i3 k (Or.inl rfl) (by simpa using hk)
+          simpa using this
+      · have : (t, pl) :: (t2, pl2) :: ys = (t, pl) :: ((t2, pl2) :: ys) := rfl
+        simp only [List.length_cons] at i4 ⊢
+        have e1 : ys.length + 1 + 1 - 1 = (ys.length + 1 - 1) + 1 := by omega
+        rw [e1, getD_tail]
+        simpa using i4
+
+
+-- ns
+
+theorem checkObserved_nil_of_all (c : Cfg) (e : Env) (payload : List Nat) (script : List Attempt) (o : Observed)
+    (h : ObservedAll c e payload script o) : checkObserved c e payload script o = [] := by
+  obtain ⟨h0, hp, hpair, hretry, hlast⟩ := h
+  simp only [] at hp hpair hretry hlast
+  simp only [checkObserved, List.append_eq_nil_iff]
+  refine ⟨⟨⟨⟨⟨⟨⟨⟨⟨⟨⟨⟨⟨?_, ?_⟩, ?_⟩, ?_⟩, ?_⟩, ?_⟩, ?_⟩, ?_⟩, ?_⟩, ?_⟩, ?_⟩, ?_⟩, ?_⟩, ?_⟩
+  all_goals apply ite_sing_nil.2
+  all_goals (try simp only [List.any_eq_true, List.mem_range, not_exists, not_and, decide_eq_true_eq, Bool.not_eq_true', Bool.not_eq_true])
+  · omega
+  · intro h; exact absurd hp h
+  · intro hen hn; have := (hpair 0 (by omega)).1; simp [hen] at this
+  · intro k _ hk; exact (hpair k hk).2.1
+  · intro k _ hk _; exact (hpair k hk).2.2.1
+  · intro k hk h0'; exact (hretry k h0' hk).1
+  · intro k hk h0'; exact (hretry k h0' hk).2.1
+  · intro k hk h0' hE hlt; exact (hretry k h0' hk).2.2 ⟨hE, hlt⟩
+  · intro k _ hk; exact (hpair k hk).2.2.2.1
+  · intro k _ hk hn hgt; exact (hpair k hk).2.2.2.2.1 ⟨hn, hgt⟩
+  · intro k _ hk hne; exact hne (hpair k hk).2.2.2.2.2
+  · intro _ a b c' d f g; exact hlast.1 ⟨a, b, c', d, f, g⟩
+  · intro a _ b; exact hlast.2.1 ⟨a, b⟩
+  · intro a _
+    cases hok : (script.getD (o.calls.length - 1) { ok := true }).ok
+    · rfl
+    · exact absurd ⟨a, hok⟩ hlast.2.2
+
+
+theorem all_of_checkObserved_nil (c : Cfg) (e : Env) (payload : List Nat) (script : List Attempt) (o : Observed)
+    (h : checkObserved c e payload script o = []) : ObservedAll c e payload script o := by
+  simp only [checkObserved, List.append_eq_nil_iff] at h
+  obtain ⟨⟨⟨⟨⟨⟨⟨⟨⟨⟨⟨⟨⟨h1, h2⟩, h3⟩, h4⟩, h5⟩, h6⟩, h7⟩, h8⟩, h9⟩, h10⟩, h11⟩, h12⟩, h13⟩, h14⟩ := h
+  have g1 := ite_sing_nil.1 h1
+  have g2 := ite_sing_nil.1 h2
+  have g3 := ite_sing_nil.1 h3
+  have g4 := ite_sing_nil.1 h4
+  have g5 := ite_sing_nil.1 h5
+  have g6 := ite_sing_nil.1 h6
+  have g7 := ite_sing_nil.1 h7
+  have g8 := ite_sing_nil.1 h8
+  have g9 := ite_sing_nil.1 h9
+  have g10 := ite_sing_nil.1 h10
+  have g11 := ite_sing_nil.1 h11
+  have g12 := ite_sing_nil.1 h12
+  have g13 := ite_sing_nil.1 h13
+  have g14 := ite_sing_nil.1 h14
+  simp only [List.any_eq_true, List.mem_range, not_exists, not_and, decide_eq_true_eq, Bool.not_eq_true', Bool.not_eq_true] at g2 g3 g4 g5 g6 g7 g8 g9 g10 g11 g12 g13 g14
+  have h0 : 0 < o.calls.length := by omega
+  refine ⟨h0, ?_, ?_, ?_, ?_⟩
+  · by_cases hp : (o.calls.getD 0 (0, [])).2 = payload
+    · exact hp
+    · exact absurd h0 (g2 hp)
+  · intro k hk
+    have hk' : k < o.calls.length := by omega
+    refine ⟨?_, g4 k hk' hk, g5 k hk' hk (g4 k hk' hk), g9 k hk' hk, ?_, ?_⟩
+    · cases hen : c.enabled
+      · exact absurd (show o.calls.length > 1 by omega) (g3 hen)
+      · rfl
+    · rintro ⟨hn, hgt⟩; exact g10 k hk' hk hn hgt
+    · exact Classical.not_not.1 (g11 k hk' hk)
+  · intro k hk0 hk
+    exact ⟨g6 k hk hk0, g7 k hk hk0, fun ⟨hE, hlt⟩ => g8 k hk hk0 hE hlt⟩
+  · refine ⟨fun ⟨a, b, c', d, f, g⟩ => g12 h0 a b c' d f g, fun ⟨a, b⟩ => g13 a h0 b, fun ⟨a, b⟩ => ?_⟩
+    have := g14 a h0
+    simp only [dfltAtt] at b
+    rw [b] at this
+    exact absurd this (by simp)
+
+/-- **the oracle decides exactly the indexed clauses** (soundness and completeness, every clause) -/
+theorem C05_check_iff (c : Cfg) (e : Env) (payload : List Nat) (script : List Attempt) (o : Observed) :
+    checkObserved c e payload script o = [] ↔ ObservedAll c e payload script o :=
+  ⟨all_of_checkObserved_nil c e payload script o, checkObserved_nil_of_all c e payload script o⟩
+
+
+
+/-! ## every allowed trace satisfies the oracle's clauses -/
+
+theorem ndAllowed_some (c : Cfg) (e : Env) (fin w : Nat) (r : Reason) (t : Nat)
+    (h : ndAllowed c e fin w (some (r, t)) = true) :
+    fin ≤ t ∧ t ≤ fin + w ∧ (r = .exhausted ∨ r = .deadline ∨ r = .shutdown ∨ r = .cancelled) ∧
+    (r = .shutdown → ∃ s, e.shutdown = some s ∧ s ≤ t) ∧
+    (r ≠ .shutdown → fin < t → sdBefore e t = false) := by
+  unfold ndAllowed at h
+  simp only [] at h
+  by_cases h1 : c.maxElapsed > 0 ∧ c.maxElapsed < fin + w
+  · simp only [h1, if_true] at h
+    simp at h
+    obtain ⟨rfl, rfl⟩ := h
+    simp
+  · simp only [h1, if_false] at h
+    by_cases h2 : olt e.deadline (fin + w) = true
+    · simp only [h2, if_true] at h
+      simp at h
+      obtain ⟨rfl, rfl⟩ := h
+      simp
+    · simp only [h2] at h
+      cases r with
+      | ok => simp at h
+      | perm => simp at h
+      | exhausted => simp at h
+      | deadline => simp at h
+      | raw => simp at h
+      | hang => simp at h
+      | cancelled =>
+        simp only [Bool.false_eq_true, if_false] at h
+        cases hx : e.ctxDone with
+        | none => simp [hx] at h
+        | some x =>
+          simp only [hx] at h
+          cases hs : e.shutdown with
+          | none =>
+            simp [hs, olt] at h
+            rcases h with ⟨h, rfl⟩ | ⟨⟨h, h'⟩, rfl⟩ <;> simp [sdBefore, hs, olt] <;> omega
+          | some s =>
+            simp [hs, olt] at h
+            rcases h with ⟨⟨h, rfl⟩, h''⟩ | ⟨⟨⟨h, h'⟩, rfl⟩, h''⟩
+            · simp [sdBefore, hs, olt]
+            · simp [sdBefore, hs, hx, olt]; omega
+      | shutdown =>
+        simp only [Bool.false_eq_true, if_false] at h
+        cases hs : e.shutdown with
+        | none => simp [hs] at h
+        | some s =>
+          simp [hs] at h
+          rcases h with ⟨h, rfl⟩ | ⟨⟨⟨h, h'⟩, rfl⟩, _⟩ <;> simp <;> omega
+
+
+/-- the library law holds for every draw the script supplies, along the interval sequence from `cur` -/
+def LawAlong (c : Cfg) : Nat → List Attempt → Prop
+  | _, [] => True
+  | cur, a :: as => (c.rfNum ≠ 0 → LibLaw c (curInterval c cur) a.drawn) ∧ LawAlong c (nextCur c (curInterval c cur)) as
+
+theorem allowed_first_call {c : Cfg} {e : Env} {now cur : Nat} {p : List Nat} {s : List Attempt} {tr : Trace}
+    (h : Allowed c e now cur p s tr) : ∃ fin rest, tr.calls = ⟨now, fin, p⟩ :: rest := by
+  cases s with
+  | nil => simp only [Allowed] at h; subst h; exact ⟨_, _, rfl⟩
+  | cons a as =>
+    simp only [Allowed] at h
+    split at h
+    · subst h; exact ⟨_, _, rfl⟩
+    · split at h
+      · subst h; exact ⟨_, _, rfl⟩
+      · split at h
+        · subst h; exact ⟨_, _, rfl⟩
+        · split at h
+          · subst h; exact ⟨_, _, rfl⟩
+          · rcases h with ⟨r, t, _, rfl⟩ | ⟨_, tr', _, rfl⟩
+            · exact ⟨_, _, rfl⟩
+            · exact ⟨_, _, rfl⟩
+
+theorem finish_dflt (c : Cfg) (e : Env) (t : Nat) : (finish c e t dfltAtt).getD t = t := by
+  simp [finish, dfltAtt]
+
+theorem curInterval_le (c : Cfg) (cur : Nat) (h : cur ≤ c.maxInt) : curInterval c cur ≤ max c.initial c.maxInt := by
+  unfold curInterval; split
+  · exact Nat.le_max_left _ _
+  · exact Nat.le_trans h (Nat.le_max_right _ _)
+
+theorem allowed_goodRec (c : Cfg) (e : Env) (o : Observed) : ∀ (s : List Attempt) (now cur : Nat) (p : List Nat) (first : Bool) (tr : Trace),
+    Allowed c e now cur p s tr → tr.reason ≠ .hang → cur ≤ c.maxInt → LawAlong c cur s →
+    (first = false → RetryStartOK c e now) →
+    o.isNil = (tr.reason == .ok) → o.permFlag = tr.permFlag → o.sdFlag = tr.sdFlag → o.tEnd = tr.tEnd →
+    GoodRec c e o first (tr.calls.map (fun cl => (cl.t, cl.payload))) s := by
+  intro s
+  induction s with
+  | nil =>
+    intro now cur p first tr h _ _ _ hf hn hp hs ht
+    simp only [Allowed] at h; subst h
+    simp only [List.map, GoodRec, List.headD]
+    refine ⟨hf, ?_, ?_, ?_⟩
+    · simp at hn; simp [hn]
+    · simp [dfltAtt]
+    · simp at hn; simp [hn]
+  | cons a as ih =>
+    intro now cur p first tr h hh hcur hlaw hf hn hp hs ht
+    simp only [Allowed] at h
+    split at h
+    · subst h; simp at hh
+    · rename_i fin hfin
+      have hfinD : (finish c e now a).getD now = fin := by rw [hfin]; rfl
+      split at h
+      · rename_i hok
+        subst h
+        simp only [List.map, GoodRec, List.headD]
+        refine ⟨hf, ?_, ?_, ?_⟩
+        · simp at hn; simp [hn]
+        · simp [hok]
+        · simp at hn; simp [hn]
+      · rename_i hok
+        split at h
+        · rename_i hen
+          subst h
+          simp only [List.map, GoodRec, List.headD]
+          refine ⟨hf, ?_, ?_, ?_⟩
+          · simp at hen; simp [hen]
+          · simp at hn; simp [hn]
+          · simp at hok; simp [hok]
+        · rename_i hen
+          split at h
+          · rename_i hperm
+            subst h
+            simp only [List.map, GoodRec, List.headD]
+            refine ⟨hf, ?_, ?_, ?_⟩
+            · simp at hp; simp [hp]
+            · simp at hn; simp [hn]
+            · simp at hok; simp [hok]
+          · rename_i hperm
+            have hen' : c.enabled = true := by simpa using hen
+            have hok' : a.ok = false := by simpa using hok
+            have hperm' : a.perm = false := by simpa using hperm
+            rcases h with ⟨r, t, hnd, rfl⟩ | ⟨hnd, tr', htr', rfl⟩
+            · obtain ⟨g1, g2, g3, g4, g5⟩ := ndAllowed_some c e fin _ r t hnd
+              simp only [List.map, GoodRec, List.headD]
+              refine ⟨hf, ?_, ?_, ?_⟩
+              · rintro ⟨_, _, hsd, _, hb, hgt⟩
+                rw [hfinD, ht] at hgt
+                simp only at hgt
+                by_cases hr : r = .shutdown
+                · subst hr; simp at hs; simp [hs] at hsd
+                · have := g5 hr hgt
+                  rw [ht] at hb; simp only at hb
+                  rw [this] at hb; exact absurd hb (by simp)
+              · rintro ⟨hnil, _⟩
+                rw [hn] at hnil
+                rcases g3 with rfl | rfl | rfl | rfl <;> simp at hnil
+              · rintro ⟨_, hk⟩; rw [hok'] at hk; exact absurd hk (by simp)
+            · obtain ⟨f2, rest, hcalls⟩ := allowed_first_call htr'
+              obtain ⟨b1, b2, b3, b4⟩ := ndAllowed_none c e fin _ hnd
+              have hnext : RetryStartOK c e (fin + waitOf c (curInterval c cur) a) := by
+                refine ⟨?_, ?_, ?_⟩
+                · cases hsd : e.shutdown with
+                  | none => simp [olt]
+                  | some s => have := b3 s hsd; simp [olt]; omega
+                · obtain ⟨dl, cn, sd⟩ := e
+                  cases dl <;> cases cn <;> simp [olt, Env.ctxDone, omin] at b2 b4 ⊢ <;> omega
+                · rintro ⟨hE, hlt⟩; rcases b1 with b1 | b1 <;> omega
+              have ihh := ih (fin + waitOf c (curInterval c cur) a) (nextCur c (curInterval c cur)) (a.rest.getD p) false tr'
+                htr' (by simpa using hh) (nextCur_le c _) hlaw.2 (fun _ => hnext) (by simpa using hn) (by simpa using hp) (by simpa using hs) (by simpa using ht)
+              simp only [List.map_cons, hcalls] at ihh ⊢
+              simp only [GoodRec, List.headD, List.tail_cons]
+              refine ⟨hf, ⟨hen', hok', hperm', ?_, ?_, rfl⟩, ihh⟩
+              · rw [hfinD]
+                have : a.throttle.getD 0 ≤ waitOf c (curInterval c cur) a := by
+                  unfold waitOf; cases a.throttle <;> simp <;> omega
+                omega
+              · rintro ⟨hnone, hgt⟩
+                rw [hfinD] at hgt
+                have hth : a.throttle = none := by cases hth : a.throttle <;> simp_all
+                have henv := C05_wait_envelope c cur a hth hlaw.1
+                have hiv := curInterval_le c cur hcur
+                have e1 : fin + waitOf c (curInterval c cur) a - fin = waitAfter c cur a := by unfold waitAfter; omega
+                rw [e1] at hgt
+                have := Nat.mul_le_mul_right (c.rfDen + c.rfNum) hiv
+                unfold envelopeHiTimesDen at hgt
+                omega
+
+
+
+/-! ## main statements over every scheduling order -/
+
+/-- the deterministic model is one of the allowed behaviours -/
+theorem C05_run_allowed (c : Cfg) (e : Env) : ∀ (s : List Attempt) (now cur : Nat) (p : List Nat),
+    Allowed c e now cur p s (run c e now cur p s) := by
+  intro s
+  induction s with
+  | nil => intro now cur p; simp [Allowed, run]
+  | cons a as ih =>
+    intro now cur p
+    cases hfin : finish c e now a with
+    | none => simp [Allowed, run, hfin]
+    | some fin =>
+      by_cases hok : a.ok = true
+      · simp [Allowed, run, hfin, hok]
+      · by_cases hen : c.enabled = true
+        · by_cases hperm : a.perm = true
+          · simp [Allowed, run, hfin, hok, hen, hperm]
+          · have hdet := ndAllowed_det c e fin (waitOf c (curInterval c cur) a)
+            simp only [Allowed, run, hfin, hok, hen, hperm, Bool.not_true, Bool.false_eq_true, if_false]
+            cases haf : afterFailure c e fin (waitOf c (curInterval c cur) a) with
+            | none =>
+              rw [haf] at hdet
+              exact Or.inr ⟨hdet, _, ih _ _ _, rfl⟩
+            | some rt =>
+              obtain ⟨r, t⟩ := rt
+              rw [haf] at hdet
+              exact Or.inl ⟨r, t, hdet, rfl⟩
+        · simp [Allowed, run, hfin, hok, hen]
+
+/-- **every scheduling order passes the oracle**: each trace the model allows — whatever happens at
+equal instants — satisfies all clauses `checkObserved` evaluates (given the library law on the draws;
+a trace in which the pusher never returns is not an observation) -/
+theorem C05_allowed_passes_check (c : Cfg) (e : Env) (p : List Nat) (s : List Attempt) (tr : Trace)
+    (h : Allowed c e 0 0 p s tr) (hh : tr.reason ≠ .hang) (hlaw : LawAlong c 0 s) :
+    checkObserved c e p s tr.observed = [] := by
+  apply checkObserved_nil_of_all
+  have hg := allowed_goodRec c e tr.observed s 0 0 p true tr h hh (Nat.zero_le _) hlaw (by simp) rfl rfl rfl rfl
+  obtain ⟨i1, i2, i3, i4⟩ := goodRec_indexed c e tr.observed _ true s hg
+  obtain ⟨fin, rest, hc⟩ := allowed_first_call h
+  refine ⟨i1, ?_, i2, fun k hk hk' => i3 k (Or.inr hk) hk', i4⟩
+  simp [Trace.observed, hc]
+
+/-- **the model's own trace always passes the oracle** -/
+theorem C05_model_passes_check (c : Cfg) (e : Env) (p : List Nat) (s : List Attempt)
+    (hh : (send c e p s).reason ≠ .hang) (hlaw : LawAlong c 0 s) :
+    checkObserved c e p s (send c e p s).observed = [] :=
+  C05_allowed_passes_check c e p s _ (C05_run_allowed c e s 0 0 p) hh hlaw
+
+/-- **the property's observable clauses hold for both orders at equal instants** -/
+theorem C05_allowed_good (c : Cfg) (e : Env) (p : List Nat) (s : List Attempt) (tr : Trace)
+    (h : Allowed c e 0 0 p s tr) (hh : tr.reason ≠ .hang) (hlaw : LawAlong c 0 s) :
+    ObservedAll c e p s tr.observed ∧ ObservedGood c e p s tr.observed :=
+  ⟨(C05_check_iff c e p s _).1 (C05_allowed_passes_check c e p s tr h hh hlaw),
+   C05_check_sound c e p s _ (C05_allowed_passes_check c e p s tr h hh hlaw)⟩
+
+/-- the monitor is sound: what it accepts is the observation of an allowed trace -/
+theorem C05_accepts_sound (c : Cfg) (e : Env) (reason : Reason) (tEnd : Nat) (perm sd : Bool) :
+    ∀ (s : List Attempt) (now cur : Nat) (p : List Nat) (calls : List (Nat × List Nat)),
+    accepts c e reason tEnd perm sd now cur p s calls = true →
+    ∃ tr, Allowed c e now cur p s tr ∧ tr.calls.map (fun cl => (cl.t, cl.payload)) = calls ∧
+      tr.reason = reason ∧ tr.tEnd = tEnd ∧ tr.permFlag = perm ∧ tr.sdFlag = sd := by
+  intro s
+  induction s with
+  | nil =>
+    intro now cur p calls h
+    simp only [accepts, Bool.and_eq_true, beq_iff_eq, Bool.not_eq_true'] at h
+    obtain ⟨⟨⟨⟨h1, h2⟩, h3⟩, h4⟩, h5⟩ := h
+    subst h1 h2 h3 h4 h5
+    exact ⟨⟨[⟨tEnd, tEnd, p⟩], .ok, tEnd, false, false⟩, by simp only [Allowed], rfl, rfl, rfl, rfl, rfl⟩
+  | cons a as ih =>
+    intro now cur p calls h
+    simp only [accepts] at h
+    split at h
+    · simp at h
+    · rename_i t pl rest
+      simp only [Bool.and_eq_true, beq_iff_eq] at h
+      obtain ⟨⟨rfl, rfl⟩, h⟩ := h
+      split at h
+      · simp at h
+      · rename_i fin hfin
+        simp only [Allowed, hfin]
+        split at h
+        · rename_i hok
+          simp only [Bool.and_eq_true, beq_iff_eq, Bool.not_eq_true', List.isEmpty_iff] at h
+          obtain ⟨⟨⟨⟨rfl, h2⟩, h3⟩, h4⟩, h5⟩ := h
+          subst h2 h3 h4 h5
+          exact ⟨⟨[⟨t, tEnd, pl⟩], .ok, tEnd, false, false⟩, by simp [hok], rfl, rfl, rfl, rfl, rfl⟩
+        · rename_i hok
+          split at h
+          · rename_i hen
+            simp only [Bool.and_eq_true, beq_iff_eq, Bool.not_eq_true', List.isEmpty_iff] at h
+            obtain ⟨⟨⟨⟨rfl, h2⟩, h3⟩, h4⟩, h5⟩ := h
+            subst h2 h3 h4 h5
+            exact ⟨⟨[⟨t, tEnd, pl⟩], .raw, tEnd, a.perm, false⟩, by simp [hok, hen], rfl, rfl, rfl, rfl, rfl⟩
+          · rename_i hen
+            split at h
+            · rename_i hperm
+              simp only [Bool.and_eq_true, beq_iff_eq, Bool.not_eq_true', List.isEmpty_iff] at h
+              obtain ⟨⟨⟨⟨rfl, h2⟩, h3⟩, h4⟩, h5⟩ := h
+              subst h2 h3 h5
+              have h4' : perm = true := by simpa using h4
+              subst h4'
+              exact ⟨⟨[⟨t, tEnd, pl⟩], .perm, tEnd, true, false⟩, by simp [hok, hen, hperm], rfl, rfl, rfl, rfl, rfl⟩
+            · rename_i hperm
+              simp only [hok, hen, hperm, if_false]
+              split at h
+              · rename_i hemp
+                simp only [Bool.and_eq_true, beq_iff_eq, Bool.not_eq_true'] at h
+                obtain ⟨⟨h1, h2⟩, h3⟩ := h
+                have : rest = [] := by simpa using hemp
+                subst this
+                subst h2
+                have h3' : sd = (reason == Reason.shutdown) := by simpa using h3
+                subst h3'
+                exact ⟨⟨[⟨t, fin, pl⟩], reason, tEnd, false, reason == .shutdown⟩, Or.inl ⟨reason, tEnd, h1, rfl⟩, rfl, rfl, rfl, rfl, rfl⟩
+              · simp only [Bool.and_eq_true] at h
+                obtain ⟨h1, h2⟩ := h
+                obtain ⟨tr', a1, a2, a3, a4, a5, a6⟩ := ih _ _ _ _ h2
+                exact ⟨{ tr' with calls := ⟨t, fin, pl⟩ :: tr'.calls }, Or.inr ⟨h1, tr', a1, rfl⟩, by simp [a2], a3, a4, a5, a6⟩
+
+/-! ### payloads only shrink -/
+
+/-- every remainder a failure names is part of what was sent in that attempt -/
+def Narrows : List Nat → List Attempt → Prop
+  | _, [] => True
+  | p, a :: as => (∀ r, a.rest = some r → r ⊆ p) ∧ Narrows (a.rest.getD p) as
+
+theorem narrows_getD {p : List Nat} {a : Attempt} (h : ∀ r, a.rest = some r → r ⊆ p) : a.rest.getD p ⊆ p := by
+  cases hr : a.rest with
+  | none => simp
+  | some r => simpa using h r hr
+
+/-- **payloads only shrink**: when every named remainder is a subset of what was sent, every call carries
+a subset of the payload of every earlier call (items not named as undelivered are never sent again),
+under every scheduling order -/
+theorem C05_payloads_shrink (c : Cfg) (e : Env) : ∀ (s : List Attempt) (now cur : Nat) (p : List Nat) (tr : Trace),
+    Allowed c e now cur p s tr → Narrows p s →
+    (∀ cl ∈ tr.calls, cl.payload ⊆ p) ∧ tr.calls.Pairwise (fun x y => y.payload ⊆ x.payload) := by
+  intro s
+  induction s with
+  | nil =>
+    intro now cur p tr h _
+    simp only [Allowed] at h; subst h
+    simp
+  | cons a as ih =>
+    intro now cur p tr h hn
+    have single : ∀ (fin : Nat) (tr : Trace), tr.calls = [⟨now, fin, p⟩] →
+        (∀ cl ∈ tr.calls, cl.payload ⊆ p) ∧ tr.calls.Pairwise (fun x y => y.payload ⊆ x.payload) := by
+      intro fin tr hc; rw [hc]; simp
+    simp only [Allowed] at h
+    split at h
+    · subst h; exact single _ _ rfl
+    · split at h
+      · subst h; exact single _ _ rfl
+      · split at h
+        · subst h; exact single _ _ rfl
+        · split at h
+          · subst h; exact single _ _ rfl
+          · rcases h with ⟨r, t, _, rfl⟩ | ⟨_, tr', htr', rfl⟩
+            · exact single _ _ rfl
+            · obtain ⟨i1, i2⟩ := ih _ _ _ tr' htr' hn.2
+              have hsub := narrows_getD hn.1
+              refine ⟨?_, ?_⟩
+              · intro cl hcl
+                simp only [List.mem_cons] at hcl
+                rcases hcl with rfl | hcl
+                · simp
+                · exact fun x hx => hsub (i1 cl hcl hx)
+              · simp only [List.pairwise_cons]
+                exact ⟨fun cl hcl x hx => hsub (i1 cl hcl hx), i2⟩
+
+theorem C05_model_payloads_shrink (c : Cfg) (e : Env) (p : List Nat) (s : List Attempt) (hn : Narrows p s) :
+    (send c e p s).calls.Pairwise (fun x y => y.payload ⊆ x.payload) :=
+  (C05_payloads_shrink c e s 0 0 p _ (C05_run_allowed c e s 0 0 p) hn).2
+
+/-! ### the timeout sender and the deadline -/
+
+/-- the pusher's context ends at the earlier of its own deadline and a cancellation of the request -/
+theorem C05_attempt_ctx (c : Cfg) (e : Env) (start : Nat) :
+    attemptCtxDone c e start = omin (pusherDeadline c e start) e.cancel := by
+  obtain ⟨dl, cn, sd⟩ := e
+  unfold attemptCtxDone pusherDeadline Env.ctxDone
+  cases dl <;> cases cn <;> by_cases ht : c.timeout > 0 <;> simp [omin, ht] <;> omega
+
+/-- the per-attempt timeout is counted from the start of each attempt and bounds an attempt that
+honours its context: it returns no later than `start + timeout`, and no later than the request deadline -/
+theorem C05_timeout_bounds_attempt (c : Cfg) (e : Env) (start : Nat) (a : Attempt) (fin : Nat)
+    (hu : a.untilCtx = true) (hf : finish c e start a = some fin) :
+    start ≤ fin ∧ (0 < c.timeout → fin ≤ start + c.timeout) ∧ (∀ d, e.deadline = some d → fin ≤ max start d) := by
+  obtain ⟨dl, cn, sd⟩ := e
+  unfold finish attemptCtxDone Env.ctxDone at hf
+  simp only [hu, if_true] at hf
+  cases dl <;> cases cn <;> by_cases ht : c.timeout > 0 <;> simp [omin, ht] at hf <;> (try subst hf) <;> simp <;> omega
+
+/-- an attempt that ran into the *timeout sender's* deadline is retried like any transient failure:
+the retry decision looks at the request's own deadline only (the per-attempt context is not stored) -/
+theorem C05_timeout_expiry_is_retried (c : Cfg) (cur : Nat) (p : List Nat) (a : Attempt) (as : List Attempt) (now : Nat)
+    (hen : c.enabled = true) (ht : 0 < c.timeout) (hu : a.untilCtx = true) (hok : a.ok = false) (hperm : a.perm = false)
+    (hE : c.maxElapsed = 0 ∨ now + c.timeout + waitAfter c cur a ≤ c.maxElapsed) :
+    ∃ f2 rest, (run c {} now cur p (a :: as)).calls =
+      ⟨now, now + c.timeout, p⟩ :: ⟨now + c.timeout + waitAfter c cur a, f2, a.rest.getD p⟩ :: rest := by
+  apply C05_next_attempt
+  refine ⟨?_, hen, hok, hperm, hE, ?_, ?_, ?_⟩
+  · simp [finish, hu, attemptCtxDone, Env.ctxDone, omin, ht]
+  all_goals (intro x hx; simp at hx)
+
+
+/-! ### non-vacuity for the equal-instant relation -/
+
+/-- shutdown at exactly the instant the back-off timer fires (1 s): both "retry at 1" and "shutdown at 1" are allowed, nothing else -/
+example : ndAllowed exCfg { shutdown := some 1 } 0 1 none = true ∧ ndAllowed exCfg { shutdown := some 1 } 0 1 (some (.shutdown, 1)) = true ∧
+    ndAllowed exCfg { shutdown := some 1 } 0 1 (some (.cancelled, 1)) = false ∧ ndAllowed exCfg { shutdown := some 1 } 0 1 (some (.shutdown, 0)) = false := by decide
+
+/-- the monitor accepts both observations and rejects a retry made after a shutdown strictly before the timer -/
+example : accepts exCfg { shutdown := some 1 } .shutdown 1 false true 0 0 [7] [{}, {}] [(0, [7])] = true ∧
+    accepts exCfg { shutdown := some 1 } .ok 1 false false 0 0 [7] [{}, { ok := true }] [(0, [7]), (1, [7])] = true ∧
+    accepts exCfg { shutdown := some 0 } .ok 1 false false 0 0 [7] [{ dur := 1 }, { ok := true }] [(0, [7]), (2, [7])] = false := by decide
+
+example : LawAlong exCfg 0 (List.replicate 3 {}) := by simp [LawAlong, exCfg, List.replicate]
+example : Narrows [1, 2, 3] [{ rest := some [2, 3] }, {}, { rest := some [3] }] := by simp [Narrows]
+example : pusherDeadline { exCfg with timeout := 5 } { deadline := some 7 } 0 = some 5 ∧
+    pusherDeadline { exCfg with timeout := 5 } { deadline := some 7 } 4 = some 7 := by decide
+
 end OtelVerif.C05
